@@ -360,24 +360,20 @@ impl<'a> SignatureManyReader<'a> {
                         let mut signatures = Vec::with_capacity(packets.len());
 
                         for (hasher, packet) in hashers.into_iter().zip(packets) {
-                            if let Some(mut hasher) = hasher {
-                                match packet {
-                                    SignaturePacket::Ops { signature: ops } => {
-                                        let Some(signature) = one_pass_signatures.pop() else {
-                                            return Err(io::Error::new(
-                                                io::ErrorKind::UnexpectedEof,
-                                                "missing signature packet",
-                                            ));
-                                        };
-                                        if !ops.matches(&signature) {
-                                            debug!(
-                                                "Ops and Signature don't match, rejecting this signature"
-                                            );
-
-                                            // If Ops and Signature don't match, we consider the signature invalid.
-                                            // Return an empty hash to model this.
-                                            hashes.push(None);
-                                        } else if let Some(config) = signature.config() {
+                            // Every packet gets exactly one slot in `hashes` and one in
+                            // `signatures`, so that both stay aligned by index.
+                            match packet {
+                                SignaturePacket::Ops { signature: ops } => {
+                                    let Some(signature) = one_pass_signatures.pop() else {
+                                        return Err(io::Error::new(
+                                            io::ErrorKind::UnexpectedEof,
+                                            "missing signature packet",
+                                        ));
+                                    };
+                                    let hash = match (hasher, signature.config()) {
+                                        (Some(mut hasher), Some(config))
+                                            if ops.matches(&signature) =>
+                                        {
                                             debug!("calculating final hash");
 
                                             let len = config
@@ -388,37 +384,41 @@ impl<'a> SignatureManyReader<'a> {
                                             hasher.update(&config.trailer(len).map_err(|e| {
                                                 io::Error::new(io::ErrorKind::InvalidData, e)
                                             })?);
-                                            hashes.push(Some(hasher.finalize()));
-                                        } else {
-                                            hashes.push(None);
+                                            Some(hasher.finalize())
                                         }
+                                        _ => {
+                                            // If there is no hasher, or Ops and Signature don't
+                                            // match, we consider the signature invalid.
+                                            // Return an empty hash to model this.
+                                            debug!("rejecting this signature");
+                                            None
+                                        }
+                                    };
 
-                                        signatures
-                                            .push(FullSignaturePacket::Ops { ops, signature });
-                                    }
-                                    SignaturePacket::Signature { signature } => {
-                                        // regular signature
-                                        let config = signature.config().ok_or_else(|| {
-                                            io::Error::new(
-                                                io::ErrorKind::InvalidData,
-                                                "inconsistent signature state",
-                                            )
-                                        })?;
-                                        // calculate final hash
-                                        let len = config.hash_signature_data(&mut hasher).map_err(
-                                            |e| io::Error::new(io::ErrorKind::InvalidData, e),
-                                        )?;
-                                        hasher.update(&config.trailer(len).map_err(|e| {
-                                            io::Error::new(io::ErrorKind::InvalidData, e)
-                                        })?);
-
-                                        hashes.push(Some(hasher.finalize()));
-                                        signatures
-                                            .push(FullSignaturePacket::Signature { signature });
-                                    }
+                                    hashes.push(hash);
+                                    signatures.push(FullSignaturePacket::Ops { ops, signature });
                                 }
-                            } else {
-                                hashes.push(None);
+                                SignaturePacket::Signature { signature } => {
+                                    // regular signature
+                                    let hash = match (hasher, signature.config()) {
+                                        (Some(mut hasher), Some(config)) => {
+                                            // calculate final hash
+                                            let len = config
+                                                .hash_signature_data(&mut hasher)
+                                                .map_err(|e| {
+                                                    io::Error::new(io::ErrorKind::InvalidData, e)
+                                                })?;
+                                            hasher.update(&config.trailer(len).map_err(|e| {
+                                                io::Error::new(io::ErrorKind::InvalidData, e)
+                                            })?);
+                                            Some(hasher.finalize())
+                                        }
+                                        _ => None,
+                                    };
+
+                                    hashes.push(hash);
+                                    signatures.push(FullSignaturePacket::Signature { signature });
+                                }
                             }
                         }
 
